@@ -10,7 +10,7 @@ CHECKS = {
   level="model_checking",
   technique="TLA+ model checking (TLC: seq.go transcription = direct-style reference on all terms) + replay of every TLC-emitted case on the real runtime",
   text="TLC checks, exhaustively over all well-formed combinator terms up to the size bound x all input tapes x all truncations, that SeqMachine.tla (function-by-function transcription of seq/seq.go) equals SeqStructured.tla (structured loops with break/continue/return: the documented semantics). Every explored case is emitted with its expected per-call observation and replayed through the public API of the real runtime built from /repo; yields, thunk/cond/post evaluation order and counts, and Result must agree.",
-  note="Trusted: TLC; the rendering of terms to seq.* calls (one function per node kind); rt.Rec as Go twin of Rec.tla. Bounded: terms up to 3 (quick, tapes up to 3) / 4 (thorough, tapes up to 2) combinator nodes, int elements, one captured variable.",
+  note="Trusted: TLC; the rendering of terms to seq.* calls (one function per node kind); rt.Rec as Go twin of Rec.tla. Bounded: terms up to 3 combinator nodes exhaustively (thorough: longer tapes, more calls, 30 000 derived terms of size 5..12; size 4 -- 64 197 terms, 963 k cases -- was run three times without violation but needs 35 min and 20 GB and is not the registered tier), int elements, one captured variable.",
   design="7 C08, 3.4, 3.5"),
 }
 
